@@ -1198,19 +1198,22 @@ class PulseSequence:
 
 def _join_equal_segments(pulse: PulseSequence) -> Sequence[Coefficients]:
     """Join potentially equal consecutive segments of *pulse*'s Hamiltonian."""
-    equal_ind = np.logical_and((np.diff(pulse.c_coeffs) == 0).all(axis=0),
-                               (np.diff(pulse.n_coeffs) == 0).all(axis=0)).nonzero()[0]
+    c_coeffs, n_coeffs, dt = pulse.c_coeffs, pulse.n_coeffs, pulse.dt
+    # Segments of zero duration do not contribute to the Hamiltonian
+    nonzero = np.asarray(dt) != 0
+    if nonzero.any() and not nonzero.all():
+        c_coeffs, n_coeffs, dt = c_coeffs[:, nonzero], n_coeffs[:, nonzero], dt[nonzero]
+
+    equal_ind = np.logical_and((np.diff(c_coeffs) == 0).all(axis=0),
+                               (np.diff(n_coeffs) == 0).all(axis=0)).nonzero()[0]
 
     if equal_ind.size > 0:
-        c_coeffs = np.delete(pulse.c_coeffs, equal_ind, axis=1)
-        n_coeffs = np.delete(pulse.n_coeffs, equal_ind, axis=1)
-        dt = np.delete(pulse.dt, equal_ind)
+        old_dt = dt
+        c_coeffs = np.delete(c_coeffs, equal_ind, axis=1)
+        n_coeffs = np.delete(n_coeffs, equal_ind, axis=1)
+        dt = np.delete(old_dt, equal_ind)
         for old, new in zip(equal_ind, equal_ind - np.arange(len(equal_ind))):
-            dt[new] += pulse.dt[old]
-    else:
-        c_coeffs = pulse.c_coeffs
-        n_coeffs = pulse.n_coeffs
-        dt = pulse.dt
+            dt[new] += old_dt[old]
 
     return c_coeffs, n_coeffs, dt
 
